@@ -16,6 +16,17 @@ def SameButAnchors (c1 c2 : Config) : Prop :=
   c1.rep = c2.rep ∧ c1.ci = c2.ci ∧ c1.cap = c2.cap ∧ c1.esc = c2.esc ∧ c1.sur = c2.sur ∧
   c1.verb = c2.verb ∧ c1.color = c2.color
 
+/-- same configuration in everything the stages before printing read: all but capturing groups, verbose
+mode, colour and the anchors -/
+def SameStageInputs (c1 c2 : Config) : Prop :=
+  c1.minRep = c2.minRep ∧ c1.minLen = c2.minLen ∧ c1.digit = c2.digit ∧ c1.nonDigit = c2.nonDigit ∧
+  c1.space = c2.space ∧ c1.nonSpace = c2.nonSpace ∧ c1.word = c2.word ∧ c1.nonWord = c2.nonWord ∧
+  c1.rep = c2.rep ∧ c1.ci = c2.ci ∧ c1.esc = c2.esc
+
+theorem SameButAnchors.stage {c1 c2 : Config} (h : SameButAnchors c1 c2) : SameStageInputs c1 c2 := by
+  obtain ⟨a1, a2, a3, a4, a5, a6, a7, a8, a9, a10, _, a12, _⟩ := h
+  exact ⟨a1, a2, a3, a4, a5, a6, a7, a8, a9, a10, a12⟩
+
 /-- the settings the expression printer reads -/
 def SamePrint (c1 c2 : Config) : Prop :=
   c1.cap = c2.cap ∧ c1.esc = c2.esc ∧ c1.sur = c2.sur ∧ c1.verb = c2.verb ∧ c1.color = c2.color
@@ -114,7 +125,7 @@ theorem ofDfa_congr {c1 c2 : Config} (h : c1.esc = c2.esc) (d : Dfa) : Expr.ofDf
   have hfun : elimStep c1 = elimStep c2 := by funext st n; exact h4 st n
   simp only [Expr.ofDfa, h3, hfun]
 
-theorem convChar_congr {c1 c2 : Config} (h : SameButAnchors c1 c2) (c : Nat) : convChar c1 c = convChar c2 c := by
+theorem convChar_congr {c1 c2 : Config} (h : SameStageInputs c1 c2) (c : Nat) : convChar c1 c = convChar c2 c := by
   obtain ⟨_, _, hd, hnd, hs, hns, hw, hnw, _⟩ := h
   have hf : flagOf c1 = flagOf c2 := by
     funext f; cases f <;> simp [flagOf, hd, hnd, hs, hns, hw, hnw]
@@ -124,12 +135,57 @@ theorem convChar_congr {c1 c2 : Config} (h : SameButAnchors c1 c2) (c : Nat) : c
   | nil => rfl
   | cons r rs ih => simp only [convCharRules, hf, ih]
 
-theorem graphemeClusters_congr {c1 c2 : Config} (h : SameButAnchors c1 c2) (env : Env) (ws : List Str) :
+/-- with none of the six class options the conversion is the identity (so running it because capturing
+groups or case-insensitivity switched the "char class feature" on changes nothing) -/
+theorem convChar_id (c : Config) (h : c.digit = false ∧ c.nonDigit = false ∧ c.space = false ∧ c.nonSpace = false ∧
+    c.word = false ∧ c.nonWord = false) (x : Nat) : convChar c x = [x] := by
+  obtain ⟨a, b, d, e, f, g⟩ := h
+  have hf : ∀ fl, flagOf c fl = false := by intro fl; cases fl <;> simp [flagOf, a, b, d, e, f, g]
+  simp only [convChar]
+  generalize Gen.convRules = rules
+  induction rules with
+  | nil => rfl
+  | cons r rs ih => simp [convCharRules, hf, ih]
+
+theorem convertClasses_id (c : Config) (h : c.digit = false ∧ c.nonDigit = false ∧ c.space = false ∧ c.nonSpace = false ∧
+    c.word = false ∧ c.nonWord = false) (cl : Cluster) : convertClasses c cl = cl := by
+  have hid : ∀ it : Str, it.flatMap (convChar c) = it := by
+    intro it
+    induction it with
+    | nil => rfl
+    | cons x xs ih => simp [List.flatMap_cons, convChar_id c h x, ih]
+  simp only [convertClasses]
+  induction cl with
+  | nil => rfl
+  | cons g gs ih =>
+    cases g with
+    | mk chars reps mn mx =>
+      simp only [List.map_cons, ih, Grapheme.chars, Grapheme.reps, Grapheme.min, Grapheme.max]
+      congr 2
+      induction chars with
+      | nil => rfl
+      | cons ch chs ihc => simp [hid ch, ihc]
+
+/-- `grapheme_clusters` with the class conversion applied unconditionally -/
+theorem graphemeClusters_uncond (c : Config) (env : Env) (ws : List Str) :
+    graphemeClusters c env ws =
+      (let cs := (ws.map fun w => clusterOfPieces (env.segOf w)).map (convertClasses c)
+       if c.rep then cs.map (convertRepetitions c) else cs) := by
+  simp only [graphemeClusters]
+  by_cases hf : c.charClassFeature = true
+  · simp [hf]
+  · have hall : c.digit = false ∧ c.nonDigit = false ∧ c.space = false ∧ c.nonSpace = false ∧ c.word = false ∧ c.nonWord = false := by
+      simp only [Config.charClassFeature, Bool.or_eq_true, not_or, Bool.not_eq_true] at hf
+      obtain ⟨⟨⟨⟨⟨⟨⟨a, b⟩, d⟩, e⟩, f⟩, g⟩, _⟩, _⟩ := hf
+      exact ⟨a, b, d, e, f, g⟩
+    have : (ws.map fun w => clusterOfPieces (env.segOf w)).map (convertClasses c) = ws.map fun w => clusterOfPieces (env.segOf w) := by
+      simp [List.map_map, Function.comp, convertClasses_id c hall]
+    simp only [hf, Bool.false_eq_true, ite_false, this]
+
+theorem graphemeClusters_congr {c1 c2 : Config} (h : SameStageInputs c1 c2) (env : Env) (ws : List Str) :
     graphemeClusters c1 env ws = graphemeClusters c2 env ws := by
   have hconv : convChar c1 = convChar c2 := funext (convChar_congr h)
-  obtain ⟨hmr, hml, hd, hnd, hs, hns, hw, hnw, hrep, hci, hcap, _⟩ := h
-  have hfeat : c1.charClassFeature = c2.charClassFeature := by
-    simp [Config.charClassFeature, hd, hnd, hs, hns, hw, hnw, hci, hcap]
+  obtain ⟨hmr, hml, hd, hnd, hs, hns, hw, hnw, hrep, hci, _⟩ := h
   have hcc : convertClasses c1 = convertClasses c2 := by
     funext cl; simp only [convertClasses, hconv]
   have hcr : createRanges c1 = createRanges c2 := by
@@ -146,15 +202,16 @@ theorem graphemeClusters_congr {c1 c2 : Config} (h : SameButAnchors c1 c2) (env 
     | succ f ih => funext gs; simp only [convertRepsAux, hcr, hsl, ih]
   have hrp : convertRepetitions c1 = convertRepetitions c2 := by
     funext cl; simp only [convertRepetitions, haux]
-  simp only [graphemeClusters, hfeat, hcc, hrep, hrp]
+  rw [graphemeClusters_uncond, graphemeClusters_uncond]
+  simp only [hcc, hrep, hrp]
 
 /-- **the expression obtained from the minimised automaton does not depend on the anchor settings** -/
-theorem firstAst_anchor_independent {c1 c2 : Config} (h : SameButAnchors c1 c2) (env : Env) (ws : List Str)
+theorem firstAst_independent {c1 c2 : Config} (h : SameStageInputs c1 c2) (env : Env) (ws : List Str)
     (st1 st2 : Stages) (h1 : regExpFrom c1 env ws = .ok st1) (h2 : regExpFrom c2 env ws = .ok st2) :
     st1.sorted = st2.sorted ∧ st1.clusters = st2.clusters ∧ st1.trie = st2.trie ∧ st1.minimized = st2.minimized ∧
       st1.firstAst = st2.firstAst := by
   have hci : c1.ci = c2.ci := h.2.2.2.2.2.2.2.2.2.1
-  have hesc : c1.esc = c2.esc := h.2.2.2.2.2.2.2.2.2.2.2.1
+  have hesc : c1.esc = c2.esc := h.2.2.2.2.2.2.2.2.2.2
   have hcl := fun ws => graphemeClusters_congr h env ws
   have hod := fun d => ofDfa_congr hesc d
   have key : ∀ (c : Config) (st : Stages), regExpFrom c env ws = .ok st →
@@ -181,5 +238,10 @@ theorem firstAst_anchor_independent {c1 c2 : Config} (h : SameButAnchors c1 c2) 
   have e4 : st1.minimized = st2.minimized := by
     rw [e3, b4] at a4; exact (Option.some.inj a4).symm
   exact ⟨e1, e2, e3, e4, by rw [a5, b5, e4, hod]⟩
+
+theorem firstAst_anchor_independent {c1 c2 : Config} (h : SameButAnchors c1 c2) (env : Env) (ws : List Str)
+    (st1 st2 : Stages) (h1 : regExpFrom c1 env ws = .ok st1) (h2 : regExpFrom c2 env ws = .ok st2) :
+    st1.sorted = st2.sorted ∧ st1.clusters = st2.clusters ∧ st1.trie = st2.trie ∧ st1.minimized = st2.minimized ∧
+      st1.firstAst = st2.firstAst := firstAst_independent h.stage env ws st1 st2 h1 h2
 
 end Grexv
